@@ -70,7 +70,7 @@ def run(ctx):
             elif must_pass(f, [0], [c["block"]] + list(err_return_blocks(f))):
                 cmp_blocks += [b for b, t in ni.calls() if fx.local_callee(t) is f]
         # every replayed return passes the comparison
-        okret = [b for b, i, adt, var, fl, ops, s_ in aggregates(ni) if adt.endswith("result::Result") and var == "Ok"]
+        okret = [b for b, i, adt, var, fl, ops, s_ in aggregates(ni) if s_["p"]["l"] == 0 and not s_["p"]["pr"] and adt.endswith("result::Result") and var == "Ok"]
         ctx.check(bool(cmp_blocks) and must_pass(ni, inc_total, cmp_blocks, to_blocks=okret), "DOM", "C08:DOM:total:before-delivery", "no replayed event is delivered without the total check",
                   "a replayed event can be delivered without passing the total-replayed check", config, ctx.where(ni))
         # ... and every replayed delivery is counted at all: the replay-only site (the budget re-observation of a replayed
